@@ -159,14 +159,19 @@ fn still_fails(scn: &Scn, class: &str, cap: u64) -> bool {
 /// Shrink a failing scenario: fewest faults (ddmin), mildest fates, simplest
 /// programs and configuration, such that the same complaint class remains.
 pub fn minimise(scn: &Scn, class: &str, cap: u64, budget: usize) -> Scn {
+    minimise_with(scn, &|s| still_fails(s, class, cap), budget)
+}
+
+/// Generic form: `fails` decides whether a candidate still shows the complaint.
+pub fn minimise_with(scn: &Scn, fails: &dyn Fn(&Scn) -> bool, budget: usize) -> Scn {
     let mut cur = scn.clone();
     let mut calls = 0usize;
-    let mut test = |s: &Scn, calls: &mut usize| -> bool {
+    let test = |s: &Scn, calls: &mut usize| -> bool {
         if *calls >= budget {
             return false;
         }
         *calls += 1;
-        still_fails(s, class, cap)
+        fails(s)
     };
     let faults_of = |s: &Scn| -> Vec<Fault> {
         match &s.sched {
